@@ -95,8 +95,8 @@ class Poisson(DiscreteRandomVariable):
 
 class Geometric(DiscreteRandomVariable):
     def __init__(self, p):
-        if p < 0 or p > 1:
-            raise InvalidParameterException(f"Parameter p for Geometric distribution must be between 0 and 1, was {p}.")
+        if p <= 0 or p > 1:
+            raise InvalidParameterException(f"Parameter p for Geometric distribution must be greater than 0 and at most 1, was {p}.")
         self.p = p
 
     def cdf(self, x):
